@@ -8,7 +8,8 @@ Summary of what the model (bug-compatibly) does:
   attributes are combined; `.int` is a MAGNITUDE, the `negative` flag of an operand is never consulted;
 * the Python int is printed with `"{}".format` and re-read by the STRING constructor, so the range is
   −32768..65535 and everything outside is an error; division by zero is an error;
-* `calculate_address_offset` always computes `address op constant`, on whichever side the address is.
+* `calculate_address_offset` always computes `address op constant`, on whichever side the address is; the
+  constant is a number or (since fix 9045646) the ADDRESS of a second label; anything else is a diagnostic.
 -/
 import CoCoVerif.Lemmas.EncodeExpr
 
@@ -268,6 +269,95 @@ theorem addrOffset_mirror_sub (h : addrIntOf ss ai = some a) (hr : k ≤ a) (hb 
   exact addrOffset_sub_nonneg ss ai a k ma mk m hk nk ae h hr hb
 
 end addr
+
+/-! ### label `op` label, and operands that are neither (since fix 9045646)
+
+The "other" operand of a label expression is the ADDRESS of its statement when it is itself a label, its number
+when numeric, and anything else is an "unresolved expression" diagnostic.  (Before the repair the STATEMENT
+INDEX of a second label, or the `.int` of an arbitrary value, was used as the constant.) -/
+
+section addr2
+variable (ss : List Stmt) (ai aj a b : Nat) (ma mb m : Mode) (ae : Bool)
+
+/-- `L2 - L1` with `L1` not above `L2`: the difference of the two ADDRESSES -/
+theorem addrOffset_label_sub_label (h : addrIntOf ss ai = some a) (h' : addrIntOf ss aj = some b)
+    (hr : b ≤ a) (hb : a - b ≤ 65535) :
+    addrOffset ss (.expr (.address ai ma) (.address aj mb) '-' m ae) =
+      .ok (.numeric (a - b) (some 4) .extended false) := by
+  rw [addrOffset_addr_addr ss ai aj a b ma mb m ae '-' h h']
+  have : addrArith '-' a b = some (((a - b : Nat) : Int)) := by
+    have : (a : Int) - b = ((a - b : Nat) : Int) := by omega
+    simp [addrArith, this]
+  rw [this]
+  have h1 : ¬ ((a - b : Nat) : Int) > 65535 := by omega
+  have h2 : ¬ ((a - b : Nat) : Int) < 0 := by omega
+  simp only [addrResult, h1, h2, if_false, Int.natAbs_natCast, decide_false]
+
+/-- `L1 - L2` with `L1` below `L2`: the negative difference of the two addresses (magnitude plus neg flag) -/
+theorem addrOffset_label_sub_label_neg (h : addrIntOf ss ai = some a) (h' : addrIntOf ss aj = some b)
+    (hr : a < b) :
+    addrOffset ss (.expr (.address ai ma) (.address aj mb) '-' m ae) =
+      .ok (.numeric (b - a) (some 4) .extended true) := by
+  rw [addrOffset_addr_addr ss ai aj a b ma mb m ae '-' h h']
+  have : addrArith '-' a b = some (-(((b - a : Nat) : Int))) := by
+    have : (a : Int) - b = -((b - a : Nat) : Int) := by omega
+    simp [addrArith, this]
+  rw [this]
+  have h1 : ¬ (-((b - a : Nat) : Int)) > 65535 := by omega
+  have h2 : (-((b - a : Nat) : Int)) < 0 := by omega
+  simp only [addrResult, h1, h2, if_false, Int.natAbs_neg, Int.natAbs_natCast, decide_true]
+
+/-- `L1 + L2`: the sum of the two addresses, a diagnostic when it does not fit 16 bits -/
+theorem addrOffset_label_add_label (h : addrIntOf ss ai = some a) (h' : addrIntOf ss aj = some b) :
+    addrOffset ss (.expr (.address ai ma) (.address aj mb) '+' m ae) =
+      if a + b > 65535 then .diag else .ok (.numeric (a + b) (some 4) .extended false) := by
+  rw [addrOffset_addr_addr ss ai aj a b ma mb m ae '+' h h']
+  have : addrArith '+' a b = some (((a + b : Nat) : Int)) := by simp [addrArith]
+  rw [this]
+  by_cases h'' : a + b > 65535
+  · have : ((a + b : Nat) : Int) > 65535 := by omega
+    simp only [addrResult, h'', this, if_true]
+  · have h1 : ¬ ((a + b : Nat) : Int) > 65535 := by omega
+    have h2 : ¬ ((a + b : Nat) : Int) < 0 := by omega
+    simp only [addrResult, h'', h1, h2, if_false, Int.natAbs_natCast, decide_false]
+
+/-- label `op` label in general: exactly what label `op` number computes for the number `address(L2)` -/
+theorem addrOffset_label_label_as_number (op : Char) (hk : Option Nat) (mk : Mode) (nk : Bool)
+    (h : addrIntOf ss ai = some a) (h' : addrIntOf ss aj = some b) :
+    addrOffset ss (.expr (.address ai ma) (.address aj mb) op m ae) =
+      addrOffset ss (.expr (.address ai ma) (.numeric b hk mk nk) op m ae) := by
+  rw [addrOffset_addr_addr ss ai aj a b ma mb m ae op h h', addrOffset_addr_num ss ai a b ma mk m hk nk ae op h]
+
+/-- the statement INDEX of the second label plays no role: two labels with the same address are interchangeable -/
+theorem addrOffset_label_label_index_irrelevant (op : Char) (aj' : Nat)
+    (h : addrIntOf ss ai = some a) (h' : addrIntOf ss aj = some b) (h'' : addrIntOf ss aj' = some b) :
+    addrOffset ss (.expr (.address ai ma) (.address aj mb) op m ae) =
+      addrOffset ss (.expr (.address ai ma) (.address aj' mb) op m ae) := by
+  rw [addrOffset_addr_addr ss ai aj a b ma mb m ae op h h', addrOffset_addr_addr ss ai aj' a b ma mb m ae op h h'']
+
+/-- an operand that is neither a number nor a label next to a label: "unresolved expression" (a diagnostic),
+on either side -/
+theorem addrOffset_unresolved (op : Char) (v : Value) (hv1 : v.isAddress = false) (hv2 : v.isNumeric = false) :
+    addrOffset ss (.expr (.address ai ma) v op m ae) = .diag ∧
+    addrOffset ss (.expr v (.address ai ma) op m ae) = .diag :=
+  ⟨addrOffset_addr_other ss ai ma m ae op v hv1 hv2, addrOffset_other_addr ss ai ma m ae op v hv1 hv2⟩
+
+end addr2
+
+/-- `L2 - L1` on a concrete three-statement program: `L1` is statement 0 at address 100, `L2` is statement 2 at
+address 4196; the result is 4096 = 4196 − 100 (the old model answered 4196 − 0, using the index of `L1`) -/
+theorem C04_label_minus_label_concrete :
+    addrOffset [{ (default : Stmt) with pkg := { address := .numeric 100 (some 4) .extended false } },
+                { (default : Stmt) with pkg := { address := .numeric 103 (some 4) .extended false } },
+                { (default : Stmt) with pkg := { address := .numeric 4196 (some 4) .extended false } }]
+        (.expr (.address 2 .none) (.address 0 .none) '-' .extended true) =
+      .ok (.numeric 4096 (some 4) .extended false) :=
+  addrOffset_label_sub_label _ 2 0 4196 100 _ _ _ _ rfl rfl (by decide) (by decide)
+
+/-- `X EQU 1,2` leaves `X` a value that is neither number nor label: `X-L` is an unresolved expression -/
+theorem C04_unresolved_concrete (ss : List Stmt) :
+    addrOffset ss (.expr (.leftRight "1".toList "2".toList .none) (.address 0 .none) '-' .extended true) = .diag :=
+  (addrOffset_unresolved ss 0 .none .extended true '-' _ rfl rfl).2
 
 /-! ### findings (kernel-checked witnesses) -/
 
